@@ -24,3 +24,12 @@ Record UData := {
   u_incb_extend : N -> bool;       (* is_incb_extend *)
   u_incb_linker : N -> bool;       (* is_incb_linker *)
 }.
+
+(* a small concrete instance, used only by the non-vacuity Examples *)
+Definition ex_U : UData :=
+  Build_UData (fun c => N.eqb c 32) (fun c => (N.leb 97 c && N.leb c 122) || (N.leb 48 c && N.leb c 57))
+              (fun c => N.leb 97 c && N.leb c 122) (fun c => N.ltb c 32)
+              (fun c => N.leb 97 c && N.leb c 122) (fun _ => false) (fun c => [c]) (fun c => [c])
+              (fun c => if N.ltb c 32 then 0 else if N.leb 4352 c then 2 else 1)
+              (fun c => if N.eqb c 10 then GC_LF else if N.eqb c 13 then GC_CR else if N.eqb c 769 then GC_Extend else GC_Any)
+              (fun _ => false) (fun _ => false).
